@@ -41,6 +41,11 @@ def token(cls, name, flavour="atom"):
     elif cls == "zero":
         t = Token("zero", "0", name)
         t.rf = RF.const(0)
+    elif isinstance(cls, tuple) and cls[0] == "const":
+        t = Token("const", repr(cls[1]), name)     # a plain number the builder singles out by a comparison
+        t.value = cls[1]
+        from fractions import Fraction as _Fr
+        t.rf = RF.const(str(_Fr(cls[1]).limit_denominator(10 ** 6)))
     elif cls == "stream":
         t = Token("stream", "<stream %s>" % name, name)
         t.rf = None           # value = next(<argument>) at each sample
@@ -58,10 +63,10 @@ class Schema(object):
         self.num = OrderedDict()
         self.den = OrderedDict()
         for k in sorted(num):
-            cls, fl = num[k] if isinstance(num[k], tuple) else (num[k], "atom")
+            cls, fl = num[k] if isinstance(num[k], tuple) and num[k][0] != "const" else (num[k], "atom")
             self.num[k] = token(cls, "Bc%d" % k, fl)
         for k in sorted(den):
-            cls, fl = den[k] if isinstance(den[k], tuple) else (den[k], "atom")
+            cls, fl = den[k] if isinstance(den[k], tuple) and den[k][0] != "const" else (den[k], "atom")
             self.den[k] = token(cls, "Ac%d" % k, fl)
         if 0 not in self.den:
             raise ValueError("schema needs a[0]")
@@ -340,6 +345,9 @@ def analyse_kernel(folded, schema, e3=None):
 
     def names_in(e):
         return [n.id for n in ast.walk(e) if isinstance(n, ast.Name) and isinstance(n.ctx, ast.Load)]
+    coef_names = {"zero_value"}
+    for t_ in list(schema.num.values()) + list(schema.den.values()):
+        coef_names |= set(re.findall(r"[A-Za-z_][A-Za-z_0-9]*", t_.text))
 
     def step(stmts, in_try):
         for st in stmts:
@@ -354,6 +362,9 @@ def analyse_kernel(folded, schema, e3=None):
                         undefined.append(nm)
                     elif _ITER_VAR.match(nm) and nm not in argn:
                         undefined.append(nm)
+                    elif nm not in state and nm not in argn and nm not in coef_names \
+                            and nm not in ("next", "StopIteration", "True", "False", "None"):
+                        undefined.append(nm)        # any other free name of the generated loop is a NameError
                 before = dict(nexts)
                 try:
                     val = Evaluator(state, call_hook=call_hook).ev(st.value)
